@@ -7,7 +7,7 @@ from __future__ import annotations
 
 import numpy as np
 
-from harness.common import bl, listl, ql, run_main, setup_jax, zl
+from harness.common import bl, listl, ql, release_jit, run_main, setup_jax, zl
 
 jax = setup_jax(x64=True)
 import jax.numpy as jnp  # noqa: E402
@@ -86,6 +86,7 @@ def body(ck):
     for i in range(n):
         lit, j = one_case(ck, ck.rng, 10_000 * (ck.seed + 1), i, H)
         cases.append(lit); cj.append(j)
+        release_jit(i)
     ck.current_case = None
     ck.log(f"{len(cases)} stub-MDP cases")
     res = ck.run_coq_cases("C01Check", cases, shard=25, preamble="From Lerax Require Import Env Tab.\nImport C01Check.")
